@@ -431,6 +431,15 @@ func (fc *FontConfigurationGotext) wrapWordBreak(text []rune, style *TextStyle, 
 		outputs[i] = output
 	}
 
+	if len(outputs) == 0 { // nothing to shape (for instance a lone line break)
+		return FirstLine{
+			Layout:   layoutGotext{},
+			Length:   0,
+			ResumeAt: -1,
+			Width:    0, Height: 0, Baseline: 0,
+		}
+	}
+
 	if style.LetterSpacing != 0 || style.WordSpacing != 0 {
 		ws, ls := floatToFixed(style.WordSpacing), floatToFixed(style.LetterSpacing)
 		shaping.AddSpacing(outputs, text, ws, ls)
